@@ -108,8 +108,12 @@ class TorchModel:
             self._seeded = True
             self._m.seeds.append(("torch", int(s)))
 
+    allow_random_seed = None  # set while a configuration with seed=None is being constructed (the one place where a fresh seed may be drawn)
+
     def _random_seed(self):
         # torch.random.seed() re-seeds torch non-deterministically and returns that seed
+        if self.allow_random_seed is not None:
+            return self.allow_random_seed
         return self._m.draw("torch", "random.seed")
 
     def __getattr__(self, name):
@@ -228,13 +232,23 @@ def _run_pure(job):
                 pass
             env.forget()
             try:
+                if job["seed"] is None:
+                    # seed=None means "draw a seed when the configuration is built": that one draw may depend on the history; from then on the
+                    # configuration object carries a concrete seed and everything below must be a function of that object alone
+                    env._tch.allow_random_seed = 123456789
                 cfg = _cfg(job)  # constructing the configuration is part of the call history
+                env._tch.allow_random_seed = None
+                if job["seed"] is None:
+                    env.forget()
+                    if not isinstance(cfg.seed, int) or isinstance(cfg.seed, bool):
+                        return [("a configuration built with seed=None carries a concrete seed afterwards", z3.BoolVal(False))]
+                want_seed = cfg.seed if job["seed"] is None else job["seed"]
                 before = _cfg_js(cfg)  # snapshot before any library call sees the object
                 plain = MazeDataset.generate(_strip_filters(cfg), gen_parallel=False)
                 d1 = _dump(plain)
                 via = MazeDataset.from_config(cfg, load_local=False, save_local=False, do_download=False)
                 after = _cfg_js(cfg)
-                again = MazeDataset.generate(_strip_filters(_cfg(job)), gen_parallel=False)
+                again = MazeDataset.generate(_strip_filters(cfg if job["seed"] is None else _cfg(job)), gen_parallel=False)
             except HistoryDependentDraw as e:
                 ctx.notes["why"] = str(e)
                 return [(f"no value is drawn from an RNG whose state depends on the prior history ({e})", z3.BoolVal(False))]
@@ -248,12 +262,13 @@ def _run_pure(job):
                 hand = getattr(hand.filter_by, f[0])(*f[1], **f[2])
             obs = [("no value is drawn from an RNG whose state depends on the prior history", z3.BoolVal(not env.m.unseeded)),
                    ("every RNG the generation reads was re-seeded from the configuration's seed immediately before",
-                    z3.BoolVal(all(s == job["seed"] for _, s in env.m.seeds))),
+                    z3.BoolVal(all(s == want_seed for _, s in env.m.seeds))),
                    ("generating again (configuration rebuilt) gives bit-identical mazes and solutions", z3.BoolVal(_dump(again) == d1)),
                    ("the config-driven entry point returns that dataset with the configured filters applied in order", z3.BoolVal(_dump(via) == _dump(hand))),
                    ("the configuration object passed in is not modified", z3.BoolVal(before == after)),
                    ("the result records the configured filters", z3.BoolVal([f["name"] for f in via.cfg.applied_filters] == [f[0] for f in job["filters"]]))]
-            ctx.notes["sig"] = d1
+            if job["seed"] is not None:  # (for seed=None the drawn seed differs between the model run and a real run by design)
+                ctx.notes["sig"] = d1
             ctx.notes["seeds_seen"] = sorted({f"{a}:{b}" for a, b in env.m.seeds})
             return obs
 
@@ -292,9 +307,10 @@ def _real_outputs(job):
     from maze_dataset import MazeDataset
 
     outs = []
+    once = _cfg(job) if job["seed"] is None else None  # seed=None: the seed is drawn when the object is built; the claim is about that object
     for k in (0, 1):
         _prehistory(k)
-        cfg = _cfg(job)
+        cfg = once if once is not None else _cfg(job)
         try:
             outs.append(_dump(MazeDataset.generate(_strip_filters(cfg), gen_parallel=False)))
         except ValueError as e:
@@ -327,7 +343,7 @@ def _replay_pure_inner(job):
     if _cfg_js(cfg) != before:
         return f"from_config-modifies-cfg | {tag} filters={job['filters']}"
     _prehistory(0)
-    hand = MazeDataset.generate(_strip_filters(_cfg(job)), gen_parallel=False)
+    hand = MazeDataset.generate(_strip_filters(cfg if job["seed"] is None else _cfg(job)), gen_parallel=False)
     for f in job["filters"]:
         hand = getattr(hand.filter_by, f[0])(*f[1], **f[2])
     if _dump(via) != _dump(hand):
@@ -439,7 +455,10 @@ def jobs(tier, seed):
                     k += 1
                     out.append(dict(h="pure", gen=gen, kwargs=kwargs, seed=s, n=n, n_mazes=3 if n >= 3 else 2, endpoint=ep, filters=fl))
     out.append(dict(h="pure", gen="gen_dfs", kwargs={}, seed=2 ** 31 - 1, n=4, n_mazes=3, endpoint={}, filters=[]))
-    pick = [j for j in out if j["seed"] in (0, 42)][:: (4 if q else 2)]
+    # seed=None: a seed is drawn once, when the configuration object is built; generating from that object is then repeatable like any other
+    out.append(dict(h="pure", gen="gen_dfs", kwargs={}, seed=None, n=3, n_mazes=3, endpoint={}, filters=fls[1]))
+    out.append(dict(h="pure", gen="gen_dfs_percolation", kwargs=dict(p=0.3), seed=None, n=3, n_mazes=2, endpoint=eps[1], filters=[]))
+    pick = [j for j in out if j["seed"] is not None and j["seed"] in (0, 42)][:: (4 if q else 2)]
     out.append(dict(h="xproc", cfgs=[{k: v for k, v in j.items() if k != "h"} for j in pick], hashseeds=[1, 4242] if q else [0, 1, 7, 4242], max_seconds=3000))
     out.sort(key=lambda j: 0 if j["h"] == "xproc" else 1)
     out[0]["twin"] = True
@@ -472,7 +491,7 @@ META = dict(
                          "matters on code that reads it (then the first such draw is the counterexample)"),
     stubs=["multiprocessing.current_process in maze_dataset.py -> main-process identity (the check runs inside a pool worker)", "random / np.random / torch (manual_seed, random.seed, sampling functions) / numpy_rng in muutils.mlutils, generators.py, lattice_maze.py, maze_dataset.py, dataset.py, "
            "token_utils.py, maze_tokenizer.py -> RNG-state model: Seeded(s) delegates to the real generator for s (random.Random / np.random.RandomState), Unseeded reports the draw"],
-    outside=["other interpreter processes / PYTHONHASHSEED values are not a symbolic input: they are covered by a concrete differential only (a sample of the configurations generated in fresh interpreters with 2 hash seeds)", "parallel generation", "seed=None (documented as 'pick a new random seed')",
+    outside=["other interpreter processes / PYTHONHASHSEED values are not a symbolic input: they are covered by a concrete differential only (a sample of the configurations generated in fresh interpreters with 2 hash seeds)", "parallel generation", "the value of the seed drawn for seed=None (only that the built configuration object then behaves like any seeded one)",
              "the on-disk cache (C11)"],
     assumptions=["np.random.RandomState(s) reproduces the global numpy RNG after np.random.seed(s); random.Random(s) reproduces random.seed(s) (validated per run: model output == real output)"],
 )
